@@ -1106,3 +1106,86 @@ pub fn printed_canon(text: &str, ty: &Ty) -> String {
         _ => "?".into(),
     }
 }
+
+// ---------------------------------------------------------------- placements of the match under test (D70)
+/// where the match expression under test sits in the program; the checker must give the same
+/// verdict at every placement
+pub const PLACEMENTS: [&str; 17] = [
+    "let-init", "arm-body", "scrutinee", "fn-body", "lambda-body", "task-block", "block-expr", "if-body",
+    "while-body", "for-body", "call-arg", "array-elem", "tuple-elem", "struct-elem", "assign-index",
+    "field-default", "else-body",
+];
+
+/// the program with the match at placement `pl`; arm k yields k
+pub fn match_program_at(u: &Universe, ty: &Ty, scrutinee: &Val, arms: &[Pat], pl: usize) -> MatchProgram {
+    let v = u.val_src(scrutinee, ty);
+    // the match itself, scrutinee inline so that it can sit anywhere (also in a type declaration)
+    let mut m = format!("match ({v}) {{\n");
+    let mut rel_spans = vec![];
+    for (k, p) in arms.iter().enumerate() {
+        m.push_str("  ");
+        let lo = m.len();
+        m.push_str(&u.pat_src(p));
+        rel_spans.push((lo, m.len()));
+        m.push_str(&format!(" -> {k}\n"));
+    }
+    m.push('}');
+    let (pre, post): (String, String) = match PLACEMENTS[pl] {
+        "let-init" => ("let r = ".into(), "\nprintln(r)\n".into()),
+        "arm-body" => ("let r = match true {\n  true -> ".into(), "\n  false -> 0\n}\nprintln(r)\n".into()),
+        "scrutinee" => ("let r = match (".into(), ") {\n  _ -> 0\n}\nprintln(r)\n".into()),
+        "fn-body" => ("fn ff() -> int {\n  ".into(), "\n}\nprintln(ff())\n".into()),
+        "lambda-body" => ("let gg = () -> {\n  ".into(), "\n}\nprintln(gg())\n".into()),
+        "task-block" => ("task {\n  let r = ".into(), "\n  println(r)\n}\n".into()),
+        "block-expr" => ("let r = {\n  let q = 1\n  ".into(), "\n}\nprintln(r)\n".into()),
+        "if-body" => ("if true {\n  let r = ".into(), "\n  println(r)\n}\n".into()),
+        "else-body" => ("if false {\n  println(0)\n} else {\n  let r = ".into(), "\n  println(r)\n}\n".into()),
+        "while-body" => ("var go = true\nwhile go {\n  go = false\n  let r = ".into(), "\n  println(r)\n}\n".into()),
+        "for-body" => ("for i in 1 {\n  let r = ".into(), "\n  println(r)\n}\n".into()),
+        "call-arg" => ("fn idf(x: int) -> int {\n  x\n}\nlet r = idf(".into(), ")\nprintln(r)\n".into()),
+        "array-elem" => ("let r = [0, ".into(), "]\nprintln(r.len())\n".into()),
+        "tuple-elem" => ("let r = (0, ".into(), ")\nprintln(1)\n".into()),
+        "struct-elem" => ("type Wrap = {\n  w: int\n}\nlet r = Wrap(".into(), ")\nprintln(r.w)\n".into()),
+        "assign-index" => ("let arr = [0, 0, 0, 0, 0, 0, 0]\narr[".into(), "] = 5\nprintln(arr[0])\n".into()),
+        "field-default" => ("type Dflt = {\n  d: int = ".into(), "\n}\nprintln(1)\n".into()),
+        _ => unreachable!(),
+    };
+    let mut src = u.decls_src();
+    src.push_str(&pre);
+    let base = src.len();
+    src.push_str(&m);
+    src.push_str(&post);
+    MatchProgram { src, arm_spans: rel_spans.into_iter().map(|(a, b)| (a + base, b + base)).collect() }
+}
+
+/// canonical rendering of a verdict for comparing placements
+pub fn verdict_key(v: &Verdict) -> String {
+    let mut w = v.witnesses.clone();
+    w.sort();
+    format!(
+        "crash={:?} other={:?} nonexh={} w={:?} red={:?}",
+        v.crash.as_ref().map(|s| s.lines().next().unwrap_or("").to_string()),
+        v.other, v.nonexhaustive, w, v.redundant
+    )
+}
+
+/// D70 regression: two fixed matches (one accepted, one non-exhaustive with a redundant arm) must get
+/// the same verdict at every placement
+pub fn placement_selftest(u: &Universe, ctx: &mut Ctx) {
+    for (arms, want_nonexh) in [(vec![Pat::Bool(true), Pat::Bool(false)], false), (vec![Pat::Bool(true), Pat::Bool(true)], true)] {
+        let pls: Vec<usize> = (0..PLACEMENTS.len()).collect();
+        let vs = par_map(&pls, |&pl| checker_verdict(&match_program_at(u, &Ty::Bool, &Val::Bool(true), &arms, pl)));
+        for (pl, v) in vs.iter().enumerate() {
+            ctx.count("placement-selftest");
+            let ok = v.crash.is_none() && v.other.is_empty() && v.nonexhaustive == want_nonexh
+                && (if want_nonexh { v.witnesses == vec!["false".to_string()] && v.redundant == vec![1] } else { v.redundant.is_empty() });
+            if !ok {
+                ctx.spec_fail(format!(
+                    "match on bool with arms [{}] placed as {}: verdict {} (expected {})",
+                    arms.iter().map(|p| u.pat_src(p)).collect::<Vec<_>>().join(" ; "), PLACEMENTS[pl], verdict_key(v),
+                    if want_nonexh { "non-exhaustive, missing `false`, arm 1 redundant" } else { "accepted" }
+                ));
+            }
+        }
+    }
+}
